@@ -1,7 +1,7 @@
 """C01 - the SS2022 TCP tunnel delivers the exact byte stream both ways.
 Spec: specs/Stream/SS2022Stream.tla.  Binding: replay of TLC state graphs / simulated walks on real
 StreamClient/StreamServer pairs over a scripted fragmenting transport (harness/drivers/c01)."""
-import json, random
+import json, random, threading
 import vlib
 from props import common
 
@@ -83,7 +83,7 @@ def graph_config(k, cfg, kind, big):
         c.update(PSizes=tla_set([0, 3000] if d == "c2s" else [0]),
                  WSizes=tla_set([0, 1, mc - 1, mc, mc + 1, 2 * mc + 1] + ([3 * mc, 70000] if big else [])),
                  RSizes=tla_set([mc + tag]), SrcCaps=tla_set([32768, mc, mc + 1]), DSizes=tla_set([part]),
-                 Paths='{"plain","rf","wt"}', Writers='{"%s"}' % wr, MaxW=4 if not big else 5, MaxR=3)
+                 Paths='{"plain","rf","wt"}', Writers='{"%s"}' % wr, MaxW=3 if not big else 4, MaxR=3)
     elif kind.startswith("buf-"):
         # every read-buffer size against chunks of boundary sizes, left-over handling, end of stream
         c.update(PSizes=tla_set([0, 3000] if d == "c2s" else [0]), WSizes=tla_set([1, mc, mc + 1] + ([4097] if big else [])),
@@ -111,42 +111,189 @@ CONFIGS = [
 ]
 
 
-def replay(v, binary, k, cfg, behs, seed, what, timeout=900):
+def replay(v, binary, k, cfg, behs, seed, what, nproc=4, timeout=900):
+    """Replay behaviours of one configuration on the real tunnel; returns (#behaviours, #steps, #distinct)."""
     if not behs:
-        return 0
+        return 0, 0, 0
     dc = driver_consts(k, cfg, seed)
     for i, b in enumerate(behs):
         b["id"] = i + 1
     outs = common.run_parallel(binary, "TestReplay", [{"behaviours": c, "seed": seed, "consts": {"cfg": dc}}
-                                                      for c in common.chunks(behs, 16)], timeout)
-    n = 0
-    for res, out, rc in outs:
-        res = common.absorb(v, res, out, rc, what)
-        n += res["behaviours"]
-        v.add("replayed_steps", res["steps"])
-    return n
+                                                      for c in common.chunks(behs, nproc)], timeout)
+    n = steps = distinct = 0
+    with LOCK:
+        for res, out, rc in outs:
+            res = common.absorb(v, res, out, rc, what)
+            n += res["behaviours"]
+            steps += res["steps"]
+            distinct = max(distinct, res.get("distinct", 0))
+    return n, steps, distinct
+
+
+LOCK = threading.Lock()
+
+
+def cfg_name(cfg):
+    return "aes%d/eih%d/pfx%d-%d/seg=%s" % (cfg["KeyLen"] * 8, cfg["Depth"], cfg["ReqPfx"], cfg["RspPfx"], cfg["AllowSeg"])
+
+
+def budget():
+    try:
+        total = int(vlib.os.environ.get("VERIF_MAX_WORKERS", "16"))
+    except ValueError:
+        total = 16
+    per = max(2, total // 4)
+    return per, max(1, total // per)
 
 
 def run(tier, seed, replay_file):
     v = vlib.Verdict("C01", tier, seed, "model_checking")
     work = vlib.scratch("c01")
     binary = vlib.build_driver("c01", work)
+    if replay_file:
+        doc = json.load(open(replay_file))
+        rp = doc["replay"].get("replay") or doc["replay"].get("Replay") or doc["replay"]
+        beh = {"steps": [{"a": a} for a in rp["steps"]], "cex": True}
+        res, out, rc = vlib.run_driver(binary, "TestReplay", {"behaviours": [beh], "seed": seed, "consts": {"cfg": rp["consts"]}}, 300)
+        common.absorb(v, res, out, rc, "replay")
+        v.coverage.update(states=1, transitions=len(rp["steps"]), traces_validated_against_impl=1)
+        v.sample(rp["steps"][:12])
+        return v.finish()
+
     k = common.vconst(work)
     big = tier == "thorough"
-    rnd = random.Random(seed)
-    nrep = 0
-    cfg = CONFIGS[0]
-    import time, os
-    kinds = os.environ.get("C01_KINDS", ",".join(KINDS)).split(",")
-    for kind in kinds:
+    per, par = budget()
+    primary = CONFIGS[seed % len(CONFIGS)]
+    v.coverage["constants_from_code"] = {x: k[x] for x in ("StreamMaxChunk", "StreamTag", "MaxPaddingLength", "IdentityHeaderLength",
+                                                           "TCPRequestFixedLengthHeaderLength", "StreamFirstCap")}
+    tot = dict(states=0, transitions=0, behaviours=0, steps=0, distinct=0)
+    detail = {}
+
+    def account(name, r, extra=None):
+        with LOCK:
+            tot["states"] += r.distinct
+            tot["transitions"] += r.generated
+            d = {"distinct": r.distinct, "generated": r.generated, "depth": r.depth, "wall_s": round(r.wall, 1), "violated": r.violation}
+            d.update(extra or {})
+            detail[name] = d
+
+    def design(name, consts, cfgfile="MCSS2022Stream.cfg"):
+        """Exhaustive check of the design on toy constants: every size around the chunk limit."""
+        r = vlib.tlc(SPEC, "MCSS2022Stream", cfgfile, consts, workers=per, timeout=2400, edges=False, heap="6g")
+        account(name, r)
+        if r.violation:
+            raise vlib.Broken("the design violates %s in the toy configuration %s (nothing to replay on the code): %s"
+                              % (r.violation, name, r.out[-1500:]))
+
+    def graph(name, cfg, kind, max_paths):
+        """State graph with the constants of the compiled code, replayed edge by edge on the real tunnel."""
         gc = graph_config(k, cfg, kind, big)
-        g = run_tlc(gc, edges=True)
-        graph = vlib.Graph(g)
-        paths, left = graph.cover(seed=seed, max_len=30)
-        print(kind, "distinct", g.distinct, "edges", len(graph.edges), "paths", len(paths), "viol", g.violation, "wall", g.wall, flush=True)
-        behs = [graph.behaviour(p) for p in paths]
-        t0 = time.time()
-        nrep += replay(v, binary, k, cfg, behs, seed, "graph replay %s" % kind)
-        print("  replay %.1fs" % (time.time() - t0), v.notes[-1:] , flush=True)
-    v.coverage["traces_validated_against_impl"] = nrep
+        g = run_tlc(gc, workers=per, edges=True, heap="6g")
+        if g.violation:
+            raise vlib.Broken("the design violates %s in graph configuration %s" % (g.violation, name))
+        gr = vlib.Graph(g)
+        paths, left = gr.cover(seed=seed, max_len=30, max_paths=max_paths)
+        n, steps, distinct = replay(v, binary, k, cfg, [gr.behaviour(p) for p in paths], seed, "graph replay " + name)
+        account(name, g, {"edges": len(gr.edges), "paths_replayed": n, "uncovered_edges": left, "config": cfg_name(cfg)})
+        with LOCK:
+            tot["behaviours"] += n
+            tot["steps"] += steps
+            tot["distinct"] = max(tot["distinct"], distinct)
+
+    def simulate(name, cfg, num, nwalk):
+        """Deeper random behaviours: both directions, every copy path, relay, real constants."""
+        rc = real_consts(k, cfg)
+        mc, tag, padmax = rc["MaxChunk"], rc["Tag"], rc["PadMax"]
+        req, rsp = hdr_sizes(rc)
+        c = dict(rc)
+        c.update(Two="TRUE", FlushLeftover="TRUE", Count="TRUE", MaxSent=1 << 21, EMIT="ACTION_CONSTRAINT Emit",
+                 AddrLens=tla_set([7, 19, 5, 100, 259]), Pads=tla_set([0, 1, padmax]),
+                 PSizes=tla_set([0, 1, padmax - 1, padmax, padmax + 1, mc - 21, mc - 9, mc - 8, mc, 2 * mc + 1, 1 << 20]),
+                 WSizes=tla_set([0, 1, 4096, mc - 1, mc, mc + 1, 2 * mc - 1, 2 * mc + 1, 1 << 20]),
+                 RSizes=tla_set([1, 100, 4096, mc - 1, mc, mc + tag - 1, mc + tag, 1 << 17]),
+                 SrcCaps=tla_set([1000, 32768, mc, mc + 1]), DSizes=tla_set([1, req - 1, req, rsp - 1, rsp, 17, 18]),
+                 Paths='{"plain","rf","wt","t2t"}', Writers='{"Ac","As","Bc","Bs"}', MaxW=14, MaxR=14)
+        s = run_tlc(c, workers=1, edges=True, simulate="num=%d" % num, depth=28, seed=seed, edge_limit=600000, heap="6g", timeout=1200)
+        if s.violation:
+            raise vlib.Broken("the design violates %s in simulation %s" % (s.violation, name))
+        sg = vlib.Graph(s)
+        walks = sg.random_walks(nwalk, 28, seed=seed)
+        n, steps, distinct = replay(v, binary, k, cfg, [sg.behaviour(p) for p in walks], seed, "simulated walks " + name)
+        account(name, s, {"walks_replayed": n, "config": cfg_name(cfg)})
+        with LOCK:
+            tot["behaviours"] += n
+            tot["steps"] += steps
+
+    def leftover_cex(name, cfg):
+        """The code as it is (FlushLeftover = FALSE): TLC finds the lost left-over; the counterexample
+        counts only if the real tunnel reproduces it."""
+        rc = real_consts(k, cfg)
+        c = dict(rc)
+        c.update(Two="FALSE", FlushLeftover="FALSE", Count="TRUE", MaxSent=100000, EMIT="", AddrLens="{7}", Pads="{0,900}", PSizes="{0}",
+                 WSizes="{5000}", RSizes="{100}", SrcCaps="{1}", DSizes="{1}", Paths='{"plain","wt"}', Writers='{"As"}', MaxW=3, MaxR=3)
+        r = run_tlc(c, workers=per, edges=False, heap="4g")
+        account(name, r)
+        if r.violation not in ("Prefix", "Conservation"):
+            raise vlib.Broken("the as-coded variant (FlushLeftover=FALSE) should violate Prefix, TLC says %s" % r.violation)
+        beh = vlib.cex_behaviour(r.trace)
+        res, out, rcode = vlib.run_driver(binary, "TestReplay", {"behaviours": [beh], "seed": seed, "consts": {"cfg": driver_consts(k, cfg, seed)}}, 300)
+        with LOCK:
+            res = common.absorb(v, res, out, rcode, "left-over counterexample")
+            tot["behaviours"] += 1
+            tot["steps"] += res["steps"]
+            if not res["violations"]:
+                v.notes.append("the TLC counterexample of the as-coded variant (Read with a small buffer, then WriteTo) is no longer "
+                               "reproduced by the real tunnel: the left-over is handed over")
+            detail[name]["reproduced_on_code"] = bool(res["violations"])
+
+    toy = dict(TOY)
+    jobs = []
+    jobs.append(("toy-c2s", design, ("toy-c2s", dict(toy, Writers='{"Ac"}'))))
+    jobs.append(("toy-s2c", design, ("toy-s2c", dict(toy, Writers='{"As"}', AllowSeg="TRUE", Depth=0))))
+    jobs.append(("leftover-cex", leftover_cex, ("leftover-cex", primary)))
+    for kind in KINDS:
+        jobs.append((kind, graph, (kind, primary, kind, None if big else 1200)))
+    toy_relay = dict(toy, Two="TRUE", Paths='{"plain","t2t"}', PSizes="{0,3}", Pads="{0,1}", WSizes="{1,6,7}", RSizes="{1,7}")
+    if not big:
+        other = CONFIGS[(seed + 1 + seed // len(CONFIGS)) % len(CONFIGS)]
+        for kind in ("handshake", "buf-s2c"):
+            jobs.append((kind + "@2", graph, (kind + "@2", other, kind, 500)))
+        jobs.append(("simulate", simulate, ("simulate", CONFIGS[(seed + 3) % len(CONFIGS)], 60, 150)))
+    else:
+        jobs.append(("toy-relay-up", design, ("toy-relay-up", dict(toy_relay, Writers='{"Ac"}'))))
+        jobs.append(("toy-relay-down", design, ("toy-relay-down", dict(toy_relay, Writers='{"Bs"}', FirstCap=6))))
+        jobs.append(("toy-both", design, ("toy-both", dict(toy, Writers='{"Ac","As"}', PSizes="{0,2}", Pads="{0,1}", WSizes="{1,6,7}", SrcCaps="{7}"))))
+        jobs.append(("toy-live", design, ("toy-live", dict(toy, Writers='{"As"}', PSizes="{0,3}", Pads="{0,1}", WSizes="{1,5,7}", RSizes="{1,7}",
+                                                             SrcCaps="{7}"), "MCSS2022StreamLive.cfg")))
+        for ci, cfg in enumerate(CONFIGS):
+            if cfg is primary:
+                continue
+            for kind in KINDS:
+                jobs.append(("%s@%d" % (kind, ci), graph, ("%s@%d" % (kind, ci), cfg, kind, 700)))
+            jobs.append(("simulate@%d" % ci, simulate, ("simulate@%d" % ci, cfg, 300, 700)))
+        jobs.append(("simulate", simulate, ("simulate", primary, 600, 1500)))
+
+    from concurrent.futures import ThreadPoolExecutor
+    with ThreadPoolExecutor(max_workers=par) as ex:
+        futs = [(name, ex.submit(fn, *args)) for name, fn, args in jobs]
+        errs = []
+        for name, f in futs:
+            try:
+                f.result()
+            except vlib.Broken as e:
+                errs.append("%s: %s" % (name, e))
+    if errs:
+        raise vlib.Broken("; ".join(errs)[:6000])
+
+    v.coverage["states"] = tot["states"]
+    v.coverage["transitions"] = tot["transitions"]
+    v.coverage["traces_validated_against_impl"] = tot["behaviours"]
+    v.coverage["replayed_steps"] = tot["steps"]
+    v.coverage["distinct_action_outcomes"] = tot["distinct"]
+    v.coverage["runs"] = detail
+    v.coverage["primary_configuration"] = cfg_name(primary)
+    v.assumptions += ["AEAD and key derivation are correct (observed only on the replayed bytes)",
+                      "the transport is reliable and ordered; a read that would block is modelled as not enabled",
+                      "read buffers have at least one byte",
+                      "identity-header chains deeper than one are terminated by harness relays that strip one header per hop"]
     return v.finish()
